@@ -161,6 +161,14 @@ pub fn is_valid_user_token(token: &String, user_name: &String, db: &Database) ->
     }
 }
 
+/// A session selected (connected = true) or gave up (false) the database: counts it and publishes
+/// $connections in one step
+pub fn change_connection_counter(db: &Database, dbs: &Arc<Databases>, connected: bool) -> Response {
+    db.change_connections_and_publish(connected, |count| {
+        set_key_value(CONNECTIONS_KEY.to_string(), count.to_string(), -1, db, &dbs)
+    })
+}
+
 pub fn set_connection_counter(db: &Database, dbs: &Arc<Databases>) -> Response {
     let value = db.connections_count().to_string();
     return set_key_value(CONNECTIONS_KEY.to_string(), value, -1, db, &dbs);
